@@ -2,4 +2,5 @@ SPECIFICATION TSpec
 CONSTANTS
   DELETE_MODE = "swap-remove"
   COMPLETE_ZERO = TRUE
+  STRIP_TE = TRUE
 CHECK_DEADLOCK FALSE
